@@ -204,6 +204,7 @@ type c20ShutCase struct {
 	FinishS         float64
 	GraceMs         int    `json:"grace_ms,omitempty"`                     // > 0: a period that is not a whole number of seconds (overrides GraceS for the flag and the oracle)
 	Second          string `json:"second_signal,omitempty"`                // a second signal (INT/TERM) sent 300 ms after the first, during the period
+	SecondAtMs      int    `json:"second_signal_at_ms,omitempty"`          // default 300
 	RejectFirstPost bool   `json:"first_response_post_rejected,omitempty"` // the proxy answers the first upload attempt of the in-flight request with 503
 	Shim            bool   `json:"shim_enabled,omitempty"`                 // the agent runs with --shim-path/--shim-websockets
 	Health          bool   `json:"health_checks_enabled,omitempty"`        // the agent also runs health checks (1 s interval, threshold 2) against a backend that always passes them
@@ -489,7 +490,11 @@ func c20Shutdown(r *core.Run, agentBin string, md *fakes.Metadata, c c20ShutCase
 	if c.Second != "" {
 		cls += "|second-signal=" + c.Second
 		go func() {
-			time.Sleep(300 * time.Millisecond)
+			at := 300 * time.Millisecond
+			if c.SecondAtMs > 0 {
+				at = time.Duration(c.SecondAtMs) * time.Millisecond
+			}
+			time.Sleep(at)
 			s2 := syscall.SIGINT
 			if c.Second == "TERM" {
 				s2 = syscall.SIGTERM
@@ -545,7 +550,15 @@ func c20Shutdown(r *core.Run, agentBin string, md *fakes.Metadata, c c20ShutCase
 	} else if exitAt.Sub(tSig) < grace-50*time.Millisecond {
 		r.Violate("C20:exited-before-grace-period:"+c.Signal, fmt.Sprintf("scenario %s: exited %v after SIG%s, before the %v period ended", c.Name, exitAt.Sub(tSig).Round(time.Millisecond), c.Signal, c.grace()), c, nil)
 	} else {
-		r.Max("max_exit_overshoot_ms", int((exitAt.Sub(tSig) - grace).Milliseconds()))
+		over := exitAt.Sub(tSig) - grace
+		r.Max("max_exit_overshoot_ms", int(over.Milliseconds()))
+		if over > 2*time.Second {
+			// "the process exits when the period ends": an exit more than 2 s late (120 ms is usual) is re-run alone before it counts
+			if !confirm {
+				return false
+			}
+			r.Violate("C20:exit-later-than-grace-period", fmt.Sprintf("scenario %s: the agent exited %v after SIG%s, %v after the %v period had ended (also when run alone)", c.Name, exitAt.Sub(tSig).Round(time.Millisecond), c.Signal, over.Round(time.Millisecond), c.grace()), c, nil)
+		}
 	}
 	// no new list call after the in-flight one returned
 	mu.Lock()
@@ -669,6 +682,8 @@ func C20(r *core.Run) {
 	// the websocket shim enabled: prompt exit without a period, and the usual behaviour with one
 	scs = append(scs, c20ShutCase{Name: fmt.Sprintf("s%d", len(scs)), Signal: "TERM", GraceS: 0, Phase: "idle", Finish: "inside", FinishS: 1, Shim: true},
 		c20ShutCase{Name: fmt.Sprintf("s%d", len(scs)+1), Signal: "INT", GraceS: 2, Phase: "at-backend", Finish: "inside", FinishS: 1, Shim: true})
+	// a second signal shortly before the period (counted from the first) ends: the exit time must not move
+	scs = append(scs, c20ShutCase{Name: fmt.Sprintf("s%d", len(scs)), Signal: "INT", GraceS: 3, Phase: "idle", Finish: "inside", FinishS: 1, Second: "TERM", SecondAtMs: 2500})
 	// the proxy rejects the first upload attempt of the in-flight response (a transient 503): the retry must still happen during the period
 	scs = append(scs, c20ShutCase{Name: fmt.Sprintf("s%d", len(scs)), Signal: "INT", GraceS: 4, Phase: "at-backend", Finish: "inside", FinishS: 1, RejectFirstPost: true})
 	// a backend that stays busy far beyond the period (longer than the progress bound): the process still exits when the period ends
